@@ -130,7 +130,10 @@ func (sd *c09Side) run(c *harness.Ctx, ending *bool, dir int) {
 			c.Violate("C09/write-failed", "%s Write(%d) = (%d, %v)", sd.name, len(buf), n, err)
 			return
 		}
-		if d := time.Since(t0); d > 30*time.Second {
+		// (in the IAT modes every wire write may be followed by a sampled delay of
+		// up to 10 ms: a long paranoid Write under a table of tiny lengths is slow
+		// by design)
+		if d := time.Since(t0); d > 30*time.Second+time.Duration(wireWrites)*11*time.Millisecond {
 			c.Violate("C09/write-too-slow", "%s Write(%d bytes) took %v of virtual time (%d scheduler steps)", sd.name, len(buf), d, c.S.Steps()-s0)
 			return
 		}
